@@ -175,6 +175,11 @@ fn index_to_seq(mut idx: u64, max_len: usize) -> Vec<&'static str> {
 
 const MORE: &[&str] = &[
     // bracketed names that are sections elsewhere in the osu! ecosystem but not in a beatmap: not headers here
+    // UTF-16BE: bytes 00 0D 00 0A / 00 0A at odd offsets, CR / LF look-alikes inside units
+    "Title:\u{100}\u{d00}\u{a15}",
+    "Artist:\u{4e00}\u{a0d}\u{d0a}\u{a0a}x",
+    "Mode\u{ff1a}3",
+    "$bg=real.jpg",
     "[Fonts]",
     "[Storyboard]",
     "[Skin]",
